@@ -59,6 +59,10 @@ func fillStars(r *rand.Rand, p string) string {
 	return p
 }
 
+// NCLI is the number of inputs that also go to the CLI channel; the input right
+// after them is the fixed dependency-ring slot (in-process channel only).
+func NCLI(nSeeds int) int { return nSeeds + h.Pick(700, 12000) }
+
 // GenInput builds input number i from the corpus. It is a pure function of
 // (VERIF_SEED, i).
 func GenInput(seeds []Seed, i int) Input {
@@ -73,7 +77,7 @@ func GenInput(seeds []Seed, i int) Input {
 		// the corpus itself, unchanged (baseline: these must all be handled)
 		in.SeedName, in.Main, in.Muts = seeds[i].Name, seeds[i].Data, []string{MutNone}
 		useAux(seeds[i])
-	} else if i == len(seeds) {
+	} else if i == NCLI(len(seeds)) {
 		// one fixed slot for the dependency ring (each run of it costs a full CPU limit)
 		in.SeedName, in.Main, in.Muts = "synthetic", depRing(30), []string{MutStructNest + ":dep-ring"}
 	} else if r.Intn(25) == 0 {
